@@ -9,7 +9,7 @@ namespace Piqp.C05
 
 variable {K : Type}
 variable [Add K] [Sub K] [Mul K] [Div K] [Neg K] [Zero K] [One K] [LT K] [DecidableLT K] [LE K] [DecidableLE K]
-variable [NatCast K] [DecidableEq K] [Inhabited K]
+variable [NatCast K] [BEq K] [Inhabited K]
 
 /-- A call that the interface reports as rejected (wrong dimensions, pattern mismatch, not set up) leaves the whole
     state — data, preconditioner, factorisation caches, last solution, settings — exactly as it was. -/
